@@ -141,6 +141,7 @@ package xtype
 //@   ensures result != nil
 //@ func toCode
 //@   props C01 C18
+//@   pure
 //@   ensures result != nil
 //@ func toCodeNamed
 //@   props C01 C18
@@ -148,15 +149,38 @@ package xtype
 //@ func toCodeObj
 //@   props C01 C18
 //@   ensures result != nil
+// Assumed vocabulary about jennifer (the library is not verified): Mentions(code, part) -- `part` is one
+// of the pieces `code` was put together from. Add keeps what the receiver had and adds its argument.
+//@ ghost Mentions(code jen.Code, part jen.Code) bool
+//@ axiom forall x jen.Code :: Mentions(x, x)
+//@ axiom forall s *jen.Statement, c jen.Code :: Mentions(s.Add(c), c)
+//@ axiom forall s *jen.Statement, c jen.Code, x jen.Code :: Mentions(s, x) ==> Mentions(s.Add(c), x)
+//@ axiom forall a jen.Code, b jen.Code, c jen.Code :: Mentions(a, b) && Mentions(b, c) ==> Mentions(a, c)
+
+// an unnamed struct type is rendered with every declared field, in order: its type, its tag when it has
+// one, and its name unless it is embedded
 //@ func toCodeStruct
 //@   props C01 C18
 //@   ensures result != nil
+//@   loop 1 invariant len(fields) == i && i >= 0 && i <= t.NumFields()
+//@   at@C01 call append#1 assert Mentions(arg1, toCode(t.Field(i).Type()))
+//@   at@C01 call append#1 assert t.Tag(i) != "" ==> Mentions(arg1, jen.Id("`" + t.Tag(i) + "`"))
+//@   at@C01 call append#1 assert !t.Field(i).Embedded() ==> Mentions(arg1, jen.Id(t.Field(i).Name()))
+//@   at@C01 call jen.Struct#1 assert len(arg0) == t.NumFields()
 //@ func toCodeInterface
 //@   props C01 C18
 //@   ensures result != nil
+// a signature is rendered with every declared parameter and result type, in order; the last parameter
+// of a variadic signature is rendered as `...T` (not as the slice type go/types reports for it)
 //@ func toCodeSignature
 //@   props C01 C18
 //@   ensures result != nil
+//@   loop 1 invariant len(jenParams) == i && i >= 0 && i <= params.Len()
+//@   loop 2 invariant len(jenResults) == i && i >= 0 && i <= results.Len()
+//@   at@C01 call append#1 assert !(t.Variadic() && i == params.Len()-1) ==> Mentions(arg1, toCode(params.At(i).Type()))
+//@   at@C01 call append#1 assert t.Variadic() && i == params.Len()-1 && dynIs[*types.Slice](params.At(i).Type()) ==> Mentions(arg1, jen.Op("...")) && Mentions(arg1, toCode(unboxed[*types.Slice](params.At(i).Type()).Elem()))
+//@   at@C01 call append#2 assert Mentions(arg1, toCode(results.At(i).Type()))
+//@   at@C01 call jen.Params#1 assert len(arg0) == t.Params().Len()
 //@ func toCodeFunc
 //@   props C01 C18
 //@   ensures result != nil
